@@ -2,12 +2,14 @@ use crate::Args;
 
 pub mod c05;
 pub mod c14;
+pub mod c16;
 
 pub fn run(args: &Args) -> i32 {
     match args.prop.as_str() {
         "C05" => c05::run(args),
         "C14" => c14::run(args),
         "smoke" => smoke::run(args),
+        "C16" => c16::run(args),
         other => {
             eprintln!("no driver for property {other}");
             2
